@@ -205,6 +205,7 @@ type Result struct {
 	NotReadyAtCancel int
 	Overlap          bool // >=2 tasks in flight at some instant
 	Output           string
+	MidSorts         int
 	DFSChecked       bool
 	Dump             string
 }
@@ -469,11 +470,18 @@ func Execute(c *DagCase) *Result {
 		g.SetOutputBuffer(out)
 	}
 	added := make([]bool, c.N)
-	for _, call := range c.Script {
+	for k, call := range c.Script {
 		if call.T < 0 || call.T >= c.N {
 			continue
 		}
 		switch call.Op {
+		case "sort":
+			// a query in the middle of the definition: judged against the graph described so far; it must
+			// not influence what later calls, the final sort or Run do
+			if pm := BuildModel(&DagCase{N: c.N, Script: c.Script[:k]}); !pm.DefErr {
+				r.checkSort(g, pm, fmt.Sprintf(" (called after %d of %d construction calls)", k, len(c.Script)))
+				res.MidSorts++
+			}
 		case "add":
 			t := tasks[call.T]
 			if added[call.T] && c.TwoTaskObjs {
@@ -510,43 +518,8 @@ func Execute(c *DagCase) *Result {
 	}
 	// DepthFirstSort (C16)
 	if !m.DefErr {
-		sorted, err := g.DepthFirstSort()
 		res.DFSChecked = true
-		if m.Cycle {
-			if err == nil {
-				r.viol("C16", "DepthFirstSort returned no error for a graph with a dependency cycle")
-			}
-		} else {
-			if err != nil {
-				r.viol("C16", "DepthFirstSort failed on an acyclic graph: %v", err)
-			} else {
-				pos := map[string]int{}
-				for k, v := range sorted {
-					if _, dup := pos[string(v.ID)]; dup {
-						r.viol("C16", "DepthFirstSort lists %s twice", v.ID)
-					}
-					pos[string(v.ID)] = k
-				}
-				for i := 0; i < c.N; i++ {
-					if !m.Exists[i] {
-						continue
-					}
-					pi, ok := pos[taskID(i)]
-					if !ok {
-						r.viol("C16", "DepthFirstSort omits %s", taskID(i))
-						continue
-					}
-					for _, d := range m.Deps[i] {
-						if pd, ok := pos[taskID(d)]; ok && pd > pi {
-							r.viol("C16", "DepthFirstSort places %s before its dependency %s", taskID(i), taskID(d))
-						}
-					}
-				}
-				if len(sorted) != m.NVert {
-					r.viol("C16", "DepthFirstSort returned %d vertices for a graph of %d", len(sorted), m.NVert)
-				}
-			}
-		}
+		r.checkSort(g, m, "")
 	}
 
 	ctx, cancel := context.WithCancel(context.Background())
@@ -828,6 +801,14 @@ LOOP:
 			break LOOP
 		}
 	}
+	if !returned && res.Stalled {
+		// everything in flight has been let go: if Run returns now, what it reports can still be judged
+		select {
+		case runErr = <-runDone:
+			returned = true
+		case <-time.After(StallBound):
+		}
+	}
 	res.RunErr = runErr
 	res.RunReturned = returned
 	r.mu.Lock()
@@ -845,6 +826,47 @@ LOOP:
 		r.checkOutput()
 	}
 	return res
+}
+
+// checkSort judges DepthFirstSort against the model of the graph defined so far.
+func (r *run) checkSort(g *dag.Graph, m *GModel, when string) {
+	c := r.c
+	sorted, err := g.DepthFirstSort()
+	if m.Cycle {
+		if err == nil {
+			r.viol("C16", "DepthFirstSort%s returned no error for a graph with a dependency cycle", when)
+		}
+		return
+	}
+	if err != nil {
+		r.viol("C16", "DepthFirstSort%s failed on an acyclic graph: %v", when, err)
+		return
+	}
+	pos := map[string]int{}
+	for k, v := range sorted {
+		if _, dup := pos[string(v.ID)]; dup {
+			r.viol("C16", "DepthFirstSort%s lists %s twice", when, v.ID)
+		}
+		pos[string(v.ID)] = k
+	}
+	for i := 0; i < c.N; i++ {
+		if !m.Exists[i] {
+			continue
+		}
+		pi, ok := pos[taskID(i)]
+		if !ok {
+			r.viol("C16", "DepthFirstSort%s omits %s", when, taskID(i))
+			continue
+		}
+		for _, d := range m.Deps[i] {
+			if pd, ok := pos[taskID(d)]; ok && pd > pi {
+				r.viol("C16", "DepthFirstSort%s places %s before its dependency %s", when, taskID(i), taskID(d))
+			}
+		}
+	}
+	if len(sorted) != m.NVert {
+		r.viol("C16", "DepthFirstSort%s returned %d vertices for a graph of %d", when, len(sorted), m.NVert)
+	}
 }
 
 func (r *run) checkResult(noTasks bool) {
@@ -885,6 +907,10 @@ func (r *run) checkResult(noTasks bool) {
 				NK = append(NK, i)
 			}
 		}
+	}
+	if !res.Cancelled && len(F) == 0 && err != nil {
+		r.viol("C14", "no task failed and nothing was cancelled (ErrorSkipParents alone does not make Run fail), yet Run returned %q; never started and not skipped through ErrorSkipParents: %v", err, ids(NK))
+		return
 	}
 	wantNil := !res.Cancelled && len(F) == 0 && len(NK) == 0
 	if res.Cancelled && len(F) == 0 && len(NK) == 0 && res.NotReadyAtCancel == 0 {
